@@ -446,10 +446,7 @@ def _augment_array_dataclass(
                 assert isinstance(b, Mapping)
                 return (
                     a.keys() == b.keys()
-                    and all(
-                        b_k is a_k
-                        for a_k, b_k in zip(
-                            a.values(), b.values(), strict=True)))
+                    and all(b[key] is a_k for key, a_k in a.items()))
             else:
                 return (
                     len(a) == len(b)
@@ -525,10 +522,7 @@ def _entries_are_identical(
         assert isinstance(b, Mapping)
         return (
             a.keys() == b.keys()
-            and all(
-                b_k is a_k
-                for a_k, b_k in zip(
-                    a.values(), b.values(), strict=True)))
+            and all(b[key] is a_k for key, a_k in a.items()))
     else:
         return len(a) == len(b) and all(
             b_i is a_i
